@@ -507,6 +507,91 @@ def wire_worker(args):
     return viol, stats, []
 
 
+# ------------------------------------------------------------------------------------------------ FAST tokens over several sessions of one client
+
+def fast_chain(A, B, replace, rotate):
+    """session 1: password login, token requested (server offers A) and issued; [session 2: the application replaces the credentials by a token
+    for mechanism B;] token login, the server rotates the token or not; last session: the client logs in with what it holds by then"""
+    import wire
+    NS2, NSF = "urn:xmpp:sasl:2", "urn:xmpp:fast:0"
+    hta, htb = "HT-%s-NONE" % A, "HT-%s-NONE" % B
+
+    def success(token=None):
+        t = "<token xmlns='%s' expiry='2099-01-01T00:00:00Z' token='%s'/>" % (NSF, token) if token else ""
+        return wire.S("<success xmlns='%s'><authorization-identifier>%s</authorization-identifier><bound xmlns='urn:xmpp:bind:0'/>%s</success>" % (NS2, wire.JID, t))
+
+    def session(sid, fast_mechs, token_out, first=False, **conn):
+        st = [] if first else [dict(op="connect", **conn)]
+        st += [wire.A("stream:stream"), wire.S(wire.hdr(sid) + wire.features(wire.f_sasl2(mechs=["PLAIN"], bind2=True, fast=fast_mechs))), wire.A("authenticate", timeout=1500),
+               success(token_out), wire.S(wire.features()), wire.A("iq", child="query", optional=True, timeout=400), wire.S("<iq type='result' id='$ID'><query xmlns='jabber:iq:roster'/></iq>", optional=True),
+               dict(op="wait_signal", name="connected", timeout=1500), dict(op="fence"), dict(op="disconnect"), dict(op="wait_signal", name="disconnected")]
+        return st
+    steps = [wire.client(sasl2=True, userAgent=True, fast=True), dict(op="connect")] + session("f1", [hta], "tok-issued-1", first=True)
+    expect = [("PLAIN", None, None)]
+    held = (A, "tok-issued-1")
+    if replace:
+        steps += session("f2", [hta, htb], "tok-rotated-2" if rotate else None, jid=wire.JID, password=wire.PASSWORD, sasl2=True, userAgent=True, fast=True, disabled=[],
+                         token={"mech": htb, "secret": "tok-from-app-2"})
+        expect.append((htb, B, "tok-from-app-2"))
+        held = (B, "tok-rotated-2") if rotate else (B, "tok-from-app-2")
+    else:
+        steps += session("f2", [hta, htb], "tok-rotated-2" if rotate else None, ownConfig=True)
+        expect.append((hta, A, "tok-issued-1"))
+        held = (A, "tok-rotated-2") if rotate else held
+    steps += session("f3", [hta, htb], None, ownConfig=True)
+    expect.append(("HT-%s-NONE" % held[0], held[0], held[1]))
+    return dict(steps=steps, timeout=9000), expect
+
+
+def fast_part(V, stats, tier):
+    import wire
+    from xml.dom import minidom
+    binary = vf.build_harness("wire")
+    hashes = ["SHA-256", "SHA3-512"] if tier == "quick" else ["SHA-256", "SHA-384", "SHA-512", "SHA3-256", "SHA3-512"]
+    cases, metas = [], []
+    for A in hashes:
+        for B in hashes:
+            for replace in (True, False):
+                for rotate in (True, False):
+                    if not replace and A != B:
+                        continue
+                    c, exp = fast_chain(A, B, replace, rotate)
+                    cases.append(c)
+                    metas.append((A, B, replace, rotate, exp))
+    outs, crashes = wire.run_cases(binary, cases)
+    for rq, info in crashes:
+        V.violation("wire crash fast " + vf.crash_sig(info), "sanitizer report / abnormal exit of a client during FAST token logins", {"stderr": info["stderr"][-3000:]})
+    for out, (A, B, replace, rotate, exp) in zip(outs, metas):
+        if not out:
+            continue
+        j = out["journal"]
+        auths = [e for e in wire.srv_rx(j) if e["tag"] == "authenticate"]
+        w = {"token_requested_for": A, "application_replaces_credentials_by_token_for": B if replace else None, "server_rotates_token": rotate,
+             "authenticate_elements": [e.get("xml", "")[:500] for e in auths], "expected": [(m, t) for m, _, t in exp]}
+        if out["stalled"] >= 0 or len(auths) != len(exp):
+            V.inconc("FAST chain A=%s B=%s replace=%s rotate=%s played %d of %d logins (stalled at %s)" % (A, B, replace, rotate, len(auths), len(exp), out["stalled"]))
+            continue
+        stats["fast_chains"] = stats.get("fast_chains", 0) + 1
+        for k, (e, (mech, h, tok)) in enumerate(zip(auths, exp)):
+            d = minidom.parseString(e["xml"].encode("utf8")).documentElement
+            got_mech = d.getAttribute("mechanism")
+            ir = d.getElementsByTagName("initial-response") or d.getElementsByTagNameNS("*", "initial-response")
+            resp = base64.b64decode(ir[0].firstChild.data) if ir and ir[0].firstChild else b""
+            if k == 0:
+                rq_ = [x for x in d.getElementsByTagNameNS("urn:xmpp:fast:0", "request-token")]
+                if got_mech != "PLAIN" or not rq_ or rq_[0].getAttribute("mechanism") != "HT-%s-NONE" % A:
+                    V.violation("wire fast token-not-requested", "first login with FAST enabled and offered did not request a token for the offered mechanism", w)
+                continue
+            stats["fast_token_logins"] = stats.get("fast_token_logins", 0) + 1
+            if got_mech != mech:
+                V.violation("wire fast wrong-mechanism login-%d%s%s" % (k + 1, " after-replaced-credentials" if replace else "", " after-rotation" if rotate and k == 2 else ""),
+                            "the token held for %s was used with %s: no conforming server accepts that" % (mech, got_mech), w)
+            elif resp != pysasl.ht(h, "alice", tok):
+                V.violation("wire fast wrong-response login-%d" % (k + 1), "the HT initial response is not authcid NUL HMAC(token, 'Initiator') for the token the client holds", dict(w, got=resp.hex(), want=pysasl.ht(h, "alice", tok).hex()))
+            else:
+                stats["fast_token_logins_ok"] = stats.get("fast_token_logins_ok", 0) + 1
+
+
 def merge(a, b):
     for k, v in b.items():
         if isinstance(v, dict):
@@ -529,6 +614,7 @@ def main(tier, replay=None):
             V.violation(sig, what, w)
         merge(stats, st)
         samples += sm[:1]
+    fast_part(V, stats, tier)
     cov = {"evaluations": stats["vectors"], "distinct_nontrivial": stats["rejections_checked"] + stats["honest_checked"],
            "rule": "Python-generated exchanges: SCRAM-SHA-1/-256/-512/SHA3-512 (honest + 15 corrupted server variants), DIGEST-MD5 as RFC 2831 server (honest + 5 variants), PLAIN, HT-*-NONE, "
                    "and 10 server message sequences through SaslManager/Sasl2Manager; credentials over printable Unicode on which SASLprep is the identity; random vectors are distinct with overwhelming probability; "
@@ -536,10 +622,13 @@ def main(tier, replay=None):
            "observed": stats, "samples": samples[:4] or [{"note": "see observed.by_kind"}]}
     floors = {"honest>0": stats["honest_checked"] > 0, "rejections>0": stats["rejections_checked"] > 0,
               "manager_sequences": stats["mgr_success_with_proof"] > 0 and stats["mgr_refused"] >= 0, "kinds>=20": len(stats["by_kind"]) >= 20,
-              "wire_honest": stats.get("wire_honest_connected", 0) >= 100, "wire_refused": stats.get("wire_refused", 0) >= 100, "wire_variants": len(stats.get("wire_by_variant", {})) >= 10}
+              "wire_honest": stats.get("wire_honest_connected", 0) >= 100, "wire_refused": stats.get("wire_refused", 0) >= 100, "wire_variants": len(stats.get("wire_by_variant", {})) >= 10, "fast_token_logins_ok": stats.get("fast_token_logins_ok", 0) >= 10}
     cov["whole_client"] = ("real QXmppClient sessions (SASL and SASL2+bind2) against a scripted server that implements SCRAM-SHA-1/-256/-512/SHA3-512 itself with Qt's hash primitives: honest exchanges with random passwords, salts "
                            "and iteration counts (the server verifies the client proof), a server holding another password, and 12 misbehaving variants (wrong / foreign / empty signature, success without data, e= instead of v=, "
                            "success instead of a challenge, nonce not extending the client's, i=0, no salt, garbage iteration count, m= extension), each with the following features in a separate or in the same packet; "
                            "oracle: session reported <=> the server proved knowledge of the password")
+    cov["fast_tokens"] = ("chains of three sessions of one client with FAST: password login requesting a token for mechanism A, a token login (with the stored token, or after the application replaced the credentials by a token for "
+                          "mechanism B) in which the server rotates the token or not, and a login with whatever the client holds by then; every HT-* login must name the mechanism the held token was issued for and carry "
+                          "authcid NUL HMAC(token, 'Initiator') (Python hmac)")
     V.finish(cov, "exploration", ["Python hashlib/hmac/pbkdf2/stringprep and our reading of RFC 5802/7677/2831/4616 and XEP-0484",
                                   "credentials restricted to strings on which SASLprep is the identity; DIGEST-MD5 credentials that RFC 2831 wants re-encoded as ISO 8859-1 are not judged (practice differs)"], floors)
